@@ -710,6 +710,11 @@ func evalUnary(unar *Unary, obj interface{}) (v interface{}, newObj interface{},
 			if unar.Op == "-" {
 				v = -vx
 			}
+		case int64:
+			// integers of the record (literals are float64)
+			if unar.Op == "-" {
+				v = -vx
+			}
 		}
 	} else {
 		v, newObj, collapse, err = evalPrimary(unar.Primary, obj)
